@@ -544,6 +544,9 @@ class Graph(object):
         """
         self._points = []
         self._cur_context = {}
+        # a scale taken from the context of a filled value
+        # is forgotten together with that value
+        self._scale = self._init_context["scale"]
 
     def __repr__(self):
         self._update()
